@@ -70,7 +70,7 @@ def _worker(args):
             out["refines"] = bc.key
     for i, ob in enumerate(all_obligations):
         rec = {"name": ob.name, "kind": ob.meta.get("kind"), "props": list(ob.meta.get("props") or c.props),
-               "clause": ob.meta.get("clause"), "path": ob.meta.get("path"), "func": key}
+               "clause": ob.meta.get("clause"), "path": ob.meta.get("path"), "func": key, "trail": ob.meta.get("trail") or []}
         if ob.meta.get("trivial"):
             rec.update(status="unsat", backend="simplifier", seconds=0.0)
         else:
@@ -110,7 +110,7 @@ def load_known(prop):
             toks = rest.strip().split(" ")
             what = []
             for t in toks:
-                if "=" in t and not what and t.split("=")[0] in ("property", "obligation", "commit"):
+                if "=" in t and not what and t.split("=")[0] in ("property", "obligation", "commit", "trail"):
                     k, v = t.split("=", 1)
                     fields[k] = v
                 else:
@@ -188,7 +188,15 @@ def main(argv=None):
     # property-level lemmas (pure SMT over the contracts)
     lemma_results = props_mod.run_lemmas(prop, tier)
     known, fixed = load_known(prop)
-    known_names = {k["obligation"]: k for k in known}
+    def known_for(o):
+        for k in known:
+            if k.get("obligation") != o["name"]:
+                continue
+            tr = k.get("trail")
+            if tr and not ",".join(o.get("trail") or []).endswith(tr):
+                continue      # same obligation, different history: not the listed finding
+            return k
+        return None
     all_obs = []
     errors = []
     crashes = []
@@ -211,8 +219,9 @@ def main(argv=None):
     known_hit = []
     os.makedirs(os.path.join(ROOT, "replay", prop), exist_ok=True)
     for o in refuted:
-        if o["name"] in known_names:
-            known_hit.append((o, known_names[o["name"]]))
+        kf = known_for(o)
+        if kf is not None:
+            known_hit.append((o, kf))
             continue
         violations.append(o)
     exit_code = 0
